@@ -23,6 +23,7 @@ type CheckSpec struct {
 }
 
 type KnownFinding struct {
+	ID       string `json:"id"`
 	Property string `json:"property"`
 	Harness  string `json:"harness"`
 	Kind     string `json:"kind"`
@@ -123,7 +124,7 @@ func cmdCheck(args []string) int {
 			continue
 		}
 		cfg := *h
-		res := Explore(P, &cfg, *workers, "z3-new", 60000)
+		res := Explore(P, &cfg, *workers, "cvc5-int", 60000)
 		results = append(results, res)
 		fmt.Printf("[%s] %s.%s paths=%d infeasible=%d obligations=%d/%d queries=%d solver=%.1fs wall=%.1fs\n", id, h.Pkg, h.Entry, res.Paths, res.Infeasible, res.Discharged, res.Obligations, res.Queries, res.SolverTime.Seconds(), res.Wall.Seconds())
 		for _, s := range res.Inconclusive {
@@ -131,7 +132,7 @@ func cmdCheck(args []string) int {
 		}
 		// cross-check with the other solvers (thorough tier)
 		if *tier == "thorough" && os.Getenv("VERIF_NOCROSS") == "" && len(res.Inconclusive) == 0 {
-			for _, sk := range []string{"z3", "cvc5"} {
+			for _, sk := range []string{"z3-new", "z3"} {
 				if h.CrossSkip != "" && strings.Contains(h.CrossSkip, sk) {
 					continue
 				}
@@ -155,6 +156,32 @@ func cmdCheck(args []string) int {
 			} else {
 				replaysOK += n
 			}
+		}
+		// known findings reached through vKnownFinding(id): must be listed as open
+		var kfIDs []string
+		for l := range res.Covers {
+			if strings.HasPrefix(l, "KF:") {
+				kfIDs = append(kfIDs, strings.TrimPrefix(l, "KF:"))
+			}
+		}
+		sort.Strings(kfIDs)
+		for _, kid := range kfIDs {
+			var kf *KnownFinding
+			for i := range known {
+				if known[i].ID == kid && known[i].Property == id && known[i].Status == "open" {
+					kf = &known[i]
+				}
+			}
+			if kf != nil {
+				fmt.Printf("KNOWN-FINDING: property=%s %s [%s, %d paths]\n", id, kf.Text, kid, res.Covers["KF:"+kid])
+				continue
+			}
+			v := &Violation{Kind: "known-finding-regressed", Msg: "behaviour of finding " + kid + " (not listed as open) is present", Harness: h.Entry, Inputs: res.KFModels[kid]}
+			rf := writeReplay(id, h, v, 900)
+			violations++
+			fmt.Printf("  violation: finding %s is not listed as open in known_findings.json but its behaviour is reachable\n", kid)
+			fmt.Printf("VIOLATION property=%s replay=%s\n", id, rf)
+			exit = 1
 		}
 		for i, v := range res.Violations {
 			kf := matchKnown(known, id, v)
@@ -480,7 +507,7 @@ func writeEvidence(id, tier string, seed int, results []*RunResult, cross []stri
 		"obligations": obl, "discharged": dis,
 		"explanation": "states = feasible symbolic paths explored to the end (each covers every input satisfying its path condition); transitions = decisions + SSA instructions executed; obligations = explicit and implicit assertions decided by the solver; traces_validated_against_impl = path witnesses / counterexamples re-run natively with matching outcome",
 		"harnesses": harnesses, "functions_encoded": fl, "queries": map[string]int{"total": queries, "sat": sat, "unsat": unsat, "unknown": unk},
-		"solver_time_s": solverT, "solvers": "z3 5.1.0 (z3-new) deciding; thorough tier re-runs every harness on z3 4.8.12 and cvc5 1.0.3",
+		"solver_time_s": solverT, "solvers": "cvc5 1.0.3 (--solve-bv-as-int=sum) deciding, z3 5.1.0 re-decides queries the primary answers unknown; thorough tier re-runs every harness on z3 5.1.0 and z3 4.8.12 (bit-blasting) and compares path and obligation counts",
 		"cross_check": cross, "cover_points": covers, "inconclusive": inconclusive,
 		"exhaustive": len(inconclusive) == 0,
 	}
